@@ -522,6 +522,13 @@ pub fn render_prop(mut ctx: Ctx, rp: &RenderProp) -> ! {
         }
     }
     ctx.set_extra("packages", json!(pkgs.len()));
+    let mut hist: BTreeMap<String, u64> = BTreeMap::new();
+    for p in &pkgs {
+        *hist.entry(format!("{}-locales", p.project.locales.len())).or_insert(0) += 1;
+        let m = p.plan.keys.iter().flat_map(|k| k.per_locale.iter().map(|(_, r)| r.len())).max().unwrap_or(0);
+        *hist.entry(format!("max-top-level-pieces-{}", if m > 26 { ">26" } else if m > 12 { "13..26" } else { "<=12" })).or_insert(0) += 1;
+    }
+    ctx.set_extra("packages_by_locale_count", json!(hist));
     ctx.set_extra("tapes_skipped_model_rejects_or_empty", json!(rejected));
     'outer: for chunk in pkgs.chunks(batch) {
         let failures = run_packages(&mut ctx, rp, chunk, None);
@@ -573,19 +580,45 @@ fn no_classes(_: &KeyPlan) -> Vec<String> {
 pub fn c01() -> RenderProp {
     RenderProp {
         id: "C01",
-        cfg: |_| GenCfg {
-            locales: (1, 4),
-            p_namespaces: 30,
-            keys: (8, 14),
-            sub_depth: 2,
-            w_kinds: [3, 9, 2, 1, 1, 2, 1],
-            p_null: 5,
-            p_absent: 5,
-            p_kind_varies: 8,
-            p_inherits: 25,
-            max_pieces: 10,
-            max_comp_depth: 5,
-            ..GenCfg::default()
+        cfg: |t| {
+            let base = GenCfg {
+                locales: (1, 4),
+                p_namespaces: 30,
+                keys: (8, 14),
+                sub_depth: 2,
+                w_kinds: [3, 9, 2, 1, 1, 2, 1],
+                p_null: 5,
+                p_absent: 5,
+                p_kind_varies: 8,
+                p_inherits: 25,
+                max_pieces: 10,
+                max_comp_depth: 5,
+                ..GenCfg::default()
+            };
+            match t.weighted(&[7, 1, 1]) {
+                // very long values: more than 26 top-level pieces (tuple chunking in the generated views)
+                1 => GenCfg {
+                    keys: (2, 3),
+                    locales: (1, 2),
+                    min_pieces: 45,
+                    max_pieces: 80,
+                    max_comp_depth: 2,
+                    w_kinds: [1, 12, 0, 0, 0, 1, 0],
+                    ..base
+                },
+                // more than 16 locales defining a key (nested EitherOf16 in the generated views)
+                2 => GenCfg {
+                    locales: (17, 20),
+                    keys: (2, 3),
+                    p_namespaces: 0,
+                    sub_depth: 1,
+                    max_pieces: 4,
+                    p_null: 2,
+                    p_absent: 2,
+                    ..base
+                },
+                _ => base,
+            }
         },
         opts: PlanOpts {
             assignments: 2,
@@ -593,9 +626,18 @@ pub fn c01() -> RenderProp {
             ..PlanOpts::default()
         },
         packages: (40, 640),
-        tape_len: 2500,
+        tape_len: 6000,
         nontrivial: |k| k.pieces_max >= 2 && !k.sig.is_empty(),
-        classes: no_classes,
+        classes: |k| {
+            let mut c = vec![];
+            if k.per_locale.iter().any(|(_, r)| r.len() > 26) {
+                c.push("more-than-26-top-level-pieces".to_string());
+            }
+            if k.per_locale.len() > 16 {
+                c.push("more-than-16-locales".to_string());
+            }
+            c
+        },
         rule: "generated packages (each: a generated project of 1-4 locales, namespaces, subkeys, 8-14 top-level keys per file, strings of \
                1-10 pieces with components nested to depth 5, unicode / escape / whitespace variants) are compiled with the real \
                load_locales!() and every (locale, key, 2 argument assignments) is observed through td_string!, td_display! and \
